@@ -100,7 +100,7 @@ func genProgress(seed int64, index int, tier string, kind string) *spec.Case {
 	}
 
 	// ---- queue tree
-	structure := pickR(r, "flat", "root", "root", "two-level", "two-level-noroot")
+	structure := pickR(r, "flat", "root", "root", "two-level", "two-level-noroot", "uneven", "uneven-root")
 	c.Meta["structure"] = structure
 	nLeaves := 2 + r.IntN(4)
 	if kind == "preempt" {
@@ -126,6 +126,10 @@ func genProgress(seed int64, index int, tier string, kind string) *spec.Case {
 		}
 	case "two-level-noroot":
 		parents = []string{"dep-a", "dep-b"}
+	case "uneven": // leaf queues at different depths: some under a department, some top-level
+		parents = []string{"dep-a", ""}
+	case "uneven-root": // root -> dep-a -> leaves and root -> leaves
+		parents = []string{"dep-a", "root"}
 	}
 	for i := 0; i < nLeaves; i++ {
 		leaves = append(leaves, &leaf{name: fmt.Sprintf("q%d", i), parent: parents[i%len(parents)]})
@@ -195,11 +199,11 @@ func genProgress(seed int64, index int, tier string, kind string) *spec.Case {
 			Spec: enginev2.QueueSpec{ParentQueue: parent, Resources: res, Priority: prio}}
 		c.Objects.Queues = append(c.Objects.Queues, q)
 	}
-	if structure == "two-level" {
+	if structure == "two-level" || structure == "uneven-root" {
 		mkQueue("root", "", pickR(r, -1, float64(capacity), float64(capacity)/2), -1, 1, nil)
 	}
 	for _, p := range parents {
-		if p == "" {
+		if p == "" || (p == "root" && structure == "uneven-root") {
 			continue
 		}
 		sum := 0.0
@@ -225,7 +229,7 @@ func genProgress(seed int64, index int, tier string, kind string) *spec.Case {
 			pq = -1
 		}
 		top := ""
-		if structure == "two-level" {
+		if structure == "two-level" || structure == "uneven-root" {
 			top = "root"
 		}
 		if structure == "root" {
